@@ -80,6 +80,11 @@ CHECKS = {
    "fault-injecting, schedule-exploring property testing (cancellation at generated scheduling points; failing wrapper block at generated position/call; both runners)",
    "Both runners execute generated graphs on the shuttle runtime while a canceller task cancels after a generated number of scheduling points, or a wrapper block fails on its k-th call; cancel => run() returns Ok with <= 1 further work() call per block and all MT blocks dropped; fail => run() returns an Err carrying the injected marker; panics, Ok, other errors and non-return are violations.",
    "bounded liveness; if the failing block never reaches call k nothing is injected", "DESIGN.md §5 C07"),
+
+ "C11": ("E2 drip-feed driver + E3 reference models", "exploration",
+   "differential property testing against f64 reference computations with stated norm-based tolerances; cross-implementation identity FIR == FFT; AVX build variant in the thorough tier",
+   "FirFilter, FftFilter, FftFilterFloat, Hilbert, SinglePoleIirFilter, QuadratureDemod and FastFM run under drip schedules and Fir::filter/filter_n/filter_float, IirFilter and the low_pass designers are called directly; every output value and every output count is compared with an f64 evaluation of the defining formula within a tolerance stated up front (64 eps sum|t| max|x| direct, 16 eps log2(N) sum|t| max|x| FFT); the thorough tier repeats the run with a +avx,+sse3 build so the AVX kernel is the one measured.",
+   "finite bounded inputs; fftw/fast-math/portable-simd feature builds not exercised; known finding: Blackman windows give asymmetric low_pass taps", "DESIGN.md §5 C11"),
 }
 
 NOT_YET = {}
